@@ -118,6 +118,9 @@ type Recipe struct {
 	Streams      []StreamR    `json:"streams"`
 	OnTracksErr  bool         `json:"ontracks_err,omitempty"`
 	CloseAt      int          `json:"close_at"` // -1: never
+	// CloseAfterDataMS > 0: Close() is called this many ms after the first onData callback, i.e. while the
+	// stream processor is in the middle of a segment
+	CloseAfterDataMS int `json:"close_after_data_ms,omitempty"`
 	// RawPrimary (oracle-only stream): served verbatim as the primary playlist
 	RawPrimary []byte `json:"raw_primary,omitempty"`
 	// Faults: how many deviations from a valid stream the generator put in (tie compares 0/1-fault cases)
@@ -644,7 +647,7 @@ type built struct {
 
 func buildRecipe(r *Recipe) (*built, error) {
 	b := &built{}
-	b.Job = job{URI: "http://stub.invalid/index.m3u8", Resources: map[string]*resource{}, OnTracksErr: r.OnTracksErr, CloseAt: r.CloseAt}
+	b.Job = job{URI: "http://stub.invalid/index.m3u8", Resources: map[string]*resource{}, OnTracksErr: r.OnTracksErr, CloseAt: r.CloseAt, CloseAfterDataMS: r.CloseAfterDataMS}
 	put := func(path string, body []byte) {
 		b.Job.Resources[path] = &resource{Status: 200, Bodies: [][]byte{body}}
 	}
